@@ -133,7 +133,20 @@ impl Grid {
         let lanes = product(&trailing);
         let vc = val_class(src);
         let sc = scale_exp::<T>(src);
-        let data = values::<T>(src, nx * ny * lanes, vc, sc);
+        let mut data = values::<T>(src, nx * ny * lanes, vc, sc);
+        // structured tables: checkerboard / symmetric Toeplitz d[i][j] = f(|i-j|) (equalities between the corners of a cell)
+        if src.chance(1, 12) {
+            let f: Vec<f64> = (0..nx.max(ny)).map(|_| value::<T>(src, ValClass::SmallInt, 0)).collect();
+            let checker = src.bool();
+            for i in 0..nx {
+                for j in 0..ny {
+                    for l in 0..lanes {
+                        let d = i.abs_diff(j);
+                        data[(i * ny + j) * lanes + l] = if checker { f[(i + j + l) % 2] } else { f[d] + l as f64 };
+                    }
+                }
+            }
+        }
         let rank = 2 + trailing.len();
         let dd = if src.chance(1, 4) { DDim::Dyn } else { DDim::of_rank(rank) };
         let lay = crate::layout::pick_lay(src);
